@@ -8,9 +8,11 @@ From RTA.Model Require Import Base FixedPoint.
 Definition ded_search (dbg : bool) (limit : N) (w : N -> N) : result :=
   search (fun d => d) (fun d => d) dbg limit w.
 
-(* demand::step_offsets(..).take_while(|A| A < L), given the steps <= L; None = a zero-length step *)
+(* demand::step_offsets(..).take_while(|A| A < L), given the steps <= L: zero-length steps are skipped (an
+   interval of length zero has no offset), every other step d becomes the offset d - 1.  The option type is kept
+   for compatibility with earlier revisions of the crate in which a zero-length step underflowed: it is always Some. *)
 Definition offsets_of_steps (steps : list N) : option (list N) :=
-  if existsb (fun d => d =? 0) steps then None else Some (map (fun d => d - 1) steps).
+  Some (map (fun d => d - 1) (filter (fun d => 0 <? d) steps)).
 
 Section FP.
   Variable dbg : bool.
@@ -90,9 +92,7 @@ Section EDF.
 
   (* offsets contributed by another task: steps shifted by D_o - D (saturating), below L *)
   Definition edf_other_offsets (L : N) (o : edf_other) : option (list N) :=
-    if L =? 0 then
-      (* max_offset = 0: the first step is pulled and rejected (a zero-length first step underflows) *)
-      match o_steps o 0 with [] => Some [] | _ => None end
+    if L =? 0 then Some []      (* max_offset = 0: the first offset is pulled and rejected *)
     else
       match offsets_of_steps (o_steps o ((L + D) - o_dl o)) with
       | None => None
